@@ -31,7 +31,7 @@ TIERS = {
     "C12": {"quick": (32, 90, 60), "thorough": (192, 400, 420)},
     "C11": {"quick": (32, 90, 60), "thorough": (192, 400, 420)},
     "C13": {"quick": (32, 60, 60), "thorough": (192, 300, 420)},
-    "C14": {"quick": (32, 300, 60), "thorough": (192, 1500, 420)},
+    "C14": {"quick": (32, 200, 60), "thorough": (192, 1500, 420)},
     "C08": {"quick": (32, 30, 60), "thorough": (192, 120, 420)},
     "C10": {"quick": (32, 50, 60), "thorough": (192, 400, 420)},
     "C18": {"quick": (32, 20, 60), "thorough": (192, 100, 420)},
